@@ -78,6 +78,8 @@ def run(run):
         fcp = res.unwrap()
         for name, v, sig in cases:
             check_case(run, fcp, sch, name, v, text, sig)
+        del fcp, res
+    CC.address_reuse_history(run, lambda fcp, sch, name, v, text, sig: check_case(run, fcp, sch, name, v, text, sig), run.pick(120, 1200))
     reach.stop()
     run.extra["reach"] = reach.summary(40)
 
